@@ -3,7 +3,10 @@ package checks
 import (
 	"encoding/json"
 	"fmt"
+	"github.com/gebn/bmc/pkg/dcmi"
 	"reflect"
+	"sort"
+	"strings"
 
 	"github.com/gebn/bmc"
 	"github.com/gebn/bmc/pkg/ipmi"
@@ -28,6 +31,12 @@ func init() {
 			}
 		}
 		return "unknown layer", false
+	}
+	Replayers["c17mixed"] = func(raw json.RawMessage) (string, bool) {
+		var c c17MixedCase
+		json.Unmarshal(raw, &c)
+		k, msg := c17Mixed(c)
+		return fmt.Sprintf("%s %s", k, msg), k != ""
 	}
 	Replayers["c17neg"] = func(raw json.RawMessage) (string, bool) {
 		var c c17NegCase
@@ -236,6 +245,151 @@ func c17Neg(c c17NegCase) (string, string) {
 	return "", ""
 }
 
+// c17MixedCase: one connection used for session-less commands, paged
+// session-less exchanges and two sessions in any order. ops: 0 command on
+// session A, 1 DCMI command on A, 2 session-less command, 3 cipher-suite
+// discovery, 4 open session B (another suite) + command, 5 close A, 6 command
+// on B, 7 SDR walk on A (A and B are opened when first needed).
+type c17MixedCase struct {
+	Ops []int `json:"ops"`
+}
+
+var c17MixedNames = []string{"A.GetDeviceID", "A.dcmi.GetPowerReading", "conn.GetSystemGUID", "RetrieveSupportedCipherSuites", "open-B+B.GetChassisStatus", "A.Close", "B.GetDeviceID", "A.RetrieveSDRRepository", "A.GetDeviceID x70"}
+
+func c17MixedRun(ops []int) (results []string, problems []string, panicked string) {
+	cfg := histConfig(ref.Suite{Auth: 1, Integ: 1, Conf: 1})
+	cfg.DistinctSIDs = true
+	w := newWorld(cfg, nil, nil)
+	var a, b *bmc.V2Session
+	aClosed := false
+	open := func(suite ipmi.CipherSuite, user string) *bmc.V2Session {
+		s, err := w.Conn.NewV2Session(w.Ctx, &bmc.V2SessionOpts{SessionOpts: bmc.SessionOpts{Username: user, Password: cfg.Password, MaxPrivilegeLevel: ipmi.PrivilegeLevelAdministrator}, CipherSuites: []ipmi.CipherSuite{suite}})
+		if err != nil {
+			results = append(results, "open "+user+": "+err.Error())
+			return nil
+		}
+		return s
+	}
+	panicked = guard(func() {
+		for _, op := range ops {
+			if (op == 0 || op == 1 || op == 5 || op == 7 || op == 8) && a == nil && !aClosed {
+				a = open(ipmi.CipherSuite3, "userA")
+			}
+			if (op == 4 || op == 6) && b == nil {
+				b = open(ipmi.CipherSuite17, "userB")
+			}
+			out := ""
+			switch op {
+			case 0:
+				if a != nil {
+					v, err := a.GetDeviceID(w.Ctx)
+					out = fmt.Sprintf("%+v %v", v, err)
+				}
+			case 1:
+				if a != nil {
+					v, err := dcmi.NewSessionCommander(a).GetPowerReading(w.Ctx, &dcmi.GetPowerReadingReq{Mode: dcmi.SystemPowerStatisticsModeNormal})
+					out = fmt.Sprintf("%+v %v", v, err)
+				}
+			case 2:
+				v, err := w.Conn.GetSystemGUID(w.Ctx)
+				out = fmt.Sprintf("%x %v", v, err)
+			case 3:
+				v, err := bmc.RetrieveSupportedCipherSuites(w.Ctx, w.Conn)
+				out = fmt.Sprintf("%v %v", v, err)
+			case 4:
+				if b != nil {
+					v, err := b.GetChassisStatus(w.Ctx)
+					out = fmt.Sprintf("suite %v/%v/%v %+v %v", b.AuthenticationAlgorithm, b.IntegrityAlgorithm, b.ConfidentialityAlgorithm, v, err)
+				}
+			case 5:
+				if a != nil {
+					out = fmt.Sprint(a.Close(w.Ctx))
+					a, aClosed = nil, true
+				}
+			case 6:
+				if b != nil {
+					v, err := b.GetDeviceID(w.Ctx)
+					out = fmt.Sprintf("%+v %v", v, err)
+				}
+			case 8:
+				if a != nil {
+					for i := 0; i < 70; i++ {
+						v, err := a.GetDeviceID(w.Ctx)
+						out = fmt.Sprintf("%+v %v", v, err)
+						if err != nil {
+							out = fmt.Sprintf("command %d of 70: %v", i+1, err)
+							break
+						}
+					}
+				}
+			case 7:
+				if a != nil {
+					repo, err := bmc.RetrieveSDRRepository(w.Ctx, a)
+					var ids []int
+					for id := range repo {
+						ids = append(ids, int(id))
+					}
+					sort.Ints(ids)
+					out = fmt.Sprintf("%v", err)
+					for _, id := range ids {
+						out += fmt.Sprintf(" %#04x:%s", id, canonNamed(reflect.ValueOf(repo[ipmi.RecordID(id)])))
+					}
+				}
+			}
+			results = append(results, out)
+		}
+	})
+	problems = problemsOf(w.BMC)
+	// per session: sequence numbers 1, 2, 3, ... in the order received
+	next := map[uint32]uint32{}
+	for i, rx := range w.BMC.Log {
+		if rx.Pkt == nil || rx.Pkt.SID == 0 {
+			continue
+		}
+		next[rx.Pkt.SID]++
+		if rx.Pkt.Seq != next[rx.Pkt.SID] {
+			problems = append(problems, fmt.Sprintf("datagram %d for session %#x carries sequence number %d, expected %d", i, rx.Pkt.SID, rx.Pkt.Seq, next[rx.Pkt.SID]))
+			next[rx.Pkt.SID] = rx.Pkt.Seq
+		}
+	}
+	return
+}
+
+var c17MixedSolo = map[int]string{}
+
+func c17Mixed(c c17MixedCase) (string, string) {
+	res, probs, p := c17MixedRun(c.Ops)
+	var names []string
+	for _, op := range c.Ops {
+		names = append(names, c17MixedNames[op])
+	}
+	if p != "" {
+		return "C17/mixed/panic/" + siteKey(p), fmt.Sprintf("history %v: %s", names, p)
+	}
+	if len(probs) > 0 {
+		return "C17/mixed/bmc-rejects-datagram", fmt.Sprintf("history %v: %s", names, strings.Join(probs, "; "))
+	}
+	aClosed := false
+	for i, op := range c.Ops {
+		if (op == 0 || op == 1 || op == 5 || op == 7 || op == 8) && aClosed {
+			continue // A is gone: nothing is asked of it
+		}
+		solo, ok := c17MixedSolo[op]
+		if !ok {
+			r, _, _ := c17MixedRun([]int{op})
+			solo = r[len(r)-1]
+			c17MixedSolo[op] = solo
+		}
+		if i < len(res) && res[i] != solo {
+			return "C17/mixed/result-depends-on-history/" + c17MixedNames[op], fmt.Sprintf("history %v: step %d (%s) returned %s; on a fresh connection it returns %s", names, i, c17MixedNames[op], res[i], solo)
+		}
+		if op == 5 {
+			aClosed = true
+		}
+	}
+	return "", ""
+}
+
 func runC17(r *rep.R) {
 	r.SetRule("layer level: for every decodable layer, every ordered pair (earlier, later) from its shape catalogue (valid encodings per branch and optional-tail length, their all-FF / all-00 same-length variants, and every truncation of them) is decoded earlier-then-later into one value and later into a fresh value; all exported fields, contents and payload must agree. Connection level: every ordered pair of commands (first one also failed or retried, k<=1 deviations) on one connection and one session; the second command's result must equal its result on a fresh connection. distinct = distinct (layer, earlier, later) / (history, choices)")
 	reg := decLayers()
@@ -323,6 +477,36 @@ func runC17(r *rep.R) {
 			}
 		}
 	}
+	// one connection used for everything, in every order
+	var genMixed func(cur []int)
+	depthMixed := 4
+	if thorough(r) {
+		depthMixed = 5
+	}
+	genMixed = func(cur []int) {
+		if len(cur) > 0 {
+			idx++
+			if r.Mine(idx) {
+				c := c17MixedCase{Ops: append([]int{}, cur...)}
+				k, msg := c17Mixed(c)
+				r.Eval(rep.H("mixed", fmt.Sprint(cur)), true)
+				r.Trace()
+				if k != "" {
+					r.Outcome("violation")
+					r.Violate(k, msg, "c17mixed", c, nil)
+				} else {
+					r.Outcome("mixed:each-result-as-on-a-fresh-connection")
+				}
+			}
+		}
+		if len(cur) == depthMixed {
+			return
+		}
+		for op := 0; op < len(c17MixedNames); op++ {
+			genMixed(append(cur, op))
+		}
+	}
+	genMixed(nil)
 	// session establishment after an earlier establishment
 	for earlier := 1; earlier < 8; earlier++ {
 		for later := 1; later < 8; later++ {
